@@ -14,10 +14,10 @@ from vf.checks import c05
 SHARDS = {'quick': 16, 'thorough': 64}
 TIMEOUT = {'quick': 1800, 'thorough': 7200}
 MUST_HIT = ['Consistency.delta', 'Census.ACT_SMT', 'Census.V_VAL', 'Chain.statements', 'Chain.parameters',
-            'Chain.navigation', 'Position.statement', 'Position.legacy-keyword-statement', 'Position.value', 'Scope.variable-block',
+            'Chain.navigation', 'Chain.event-data', 'Census.event-statement', 'Position.statement', 'Position.legacy-keyword-statement', 'Position.value', 'Scope.variable-block',
             'Typing.comparison', 'Typing.literal', 'Typing.variable', 'Typing.attribute', 'Typing.parameter',
             'Typing.selection', 'Typing.cardinality', 'Home.function', 'Home.bridge', 'Home.operation',
-            'Home.derived']
+            'Home.derived', 'Home.state', 'Home.transition', 'Typing.event-data']
 MUST_REACH = ['bridgepoint/prebuild.py:ActionPrebuilder.act_smt', 'bridgepoint/prebuild.py:ActionPrebuilder.v_val',
               'bridgepoint/prebuild.py:ActionPrebuilder.v_var', 'bridgepoint/prebuild.py:ActionPrebuilder.v_int',
               'bridgepoint/prebuild.py:ActionPrebuilder.v_ins', 'bridgepoint/prebuild.py:ActionPrebuilder.v_trn',
@@ -29,7 +29,7 @@ MUST_REACH = ['bridgepoint/prebuild.py:ActionPrebuilder.act_smt', 'bridgepoint/p
               'bridgepoint/prebuild.py:ActionPrebuilder.accept_AssignmentNode']
 ANCHORS = MUST_REACH
 MIN_NONTRIVIAL = {'quick': 300, 'thorough': 300}
-RULE = ('the C05 program stream (same universe, four action homes); after prebuild every monitor below is '
+RULE = ('the C05 program stream (same universe, six action homes incl. state and transition actions, event statements); after prebuild every monitor below is '
         'evaluated on the created instances. Non-trivial = the program has a block with at least three '
         'statements, an invocation with two or more parameters or a navigation chain of two or more steps; '
         'distinct by hash of (home, text).')
@@ -47,12 +47,14 @@ TECHNIQUE = 'runtime monitoring: structural invariants and reference typing/orde
 
 Mismatch = c05.Mismatch
 TYPE_NAME = {pbgen.INT: 'integer', pbgen.STR: 'string', pbgen.BOOL: 'boolean', pbgen.REAL: 'real',
-             pbgen.ENUM: 'Color', pbgen.ENUM2: 'Mood'}
+             pbgen.ENUM: 'Color', pbgen.ENUM2: 'Mood', pbgen.EVENT: 'inst<Event>'}
 STATEMENT_CLASSES = set(['AssignmentNode', 'InvocationStatementNode', 'ReturnNode', 'BreakNode', 'ContinueNode',
                          'ControlNode', 'CreateObjectNode', 'CreateObjectNoVariableNode', 'DeleteNode',
                          'RelateNode', 'RelateUsingNode', 'UnrelateNode', 'UnrelateUsingNode', 'SelectFromNode',
                          'SelectFromWhereNode', 'SelectRelatedNode', 'SelectRelatedWhereNode', 'IfNode',
-                         'WhileNode', 'ForEachNode'])
+                         'WhileNode', 'ForEachNode', 'GenerateInstanceEventNode', 'GenerateClassEventNode',
+                         'GenerateCreatorEventNode', 'GeneratePreexistingNode', 'CreateInstanceEventNode',
+                         'CreateClassEventNode', 'CreateCreatorEventNode'])
 EXPRESSION_CLASSES = set(['IntegerNode', 'RealNode', 'StringNode', 'BooleanNode', 'VariableAccessNode',
                           'SelfAccessNode', 'SelectedAccessNode', 'ParamAccessNode', 'FieldAccessNode',
                           'IndexAccessNode', 'EnumOrNamedConstantNode', 'UnaryOperationNode',
@@ -94,7 +96,8 @@ def declarations(tree):
             if t.cls == 'VariableAccessNode':
                 return t.fields['variable_name']
         elif s.cls in ('CreateObjectNode', 'SelectFromNode', 'SelectFromWhereNode', 'SelectRelatedNode',
-                       'SelectRelatedWhereNode'):
+                       'SelectRelatedWhereNode', 'CreateInstanceEventNode', 'CreateClassEventNode',
+                       'CreateCreatorEventNode'):
             return s.fields['variable_name']
         elif s.cls == 'ForEachNode':
             return s.fields['instance_variable_name']
@@ -152,8 +155,23 @@ def check(ctx, rng, home):
         raise Mismatch('consistency/association-violations', 'prebuild changed the number of association '
                        'violations from %d to %d\n%s' % (before[0], after[0], text))
     if after[1] != before[1]:
-        raise Mismatch('consistency/identifier-violations', 'prebuild changed the number of identifier '
-                       'violations from %d to %d\n%s' % (before[1], after[1], text))
+        # which identifying values are null? (one mechanism key per class.identifier.attribute)
+        nulls = {}
+        for kind in ('V_EPR',):
+            mc = m.find_metaclass(kind)
+            for iname, attrs in mc.indices.items():
+                for i in mc.storage:
+                    for a in attrs:
+                        if null(getattr(i, a)):
+                            nulls.setdefault('%s.%s.%s' % (kind, iname, a), []).append(i)
+        if nulls and sum(len(v) for v in nulls.values()) == after[1] - before[1]:
+            for k, insts in sorted(nulls.items()):
+                ctx.violation('consistency/identifier-null:' + k,
+                              'prebuild created %d %s instance(s) whose identifying attribute %s is null\n%s'
+                              % (len(insts), k.split('.')[0], k.split('.')[2], text), case=dict(text=text, home=home))
+        else:
+            raise Mismatch('consistency/identifier-violations', 'prebuild changed the number of identifier '
+                           'violations from %d to %d\n%s' % (before[1], after[1], text))
     # -- subtype census -----------------------------------------------------
     smts = list(m.select_many('ACT_SMT'))
     vals = list(m.select_many('V_VAL'))
@@ -249,6 +267,66 @@ def check(ctx, rng, home):
                 elif nxt != by_name[params[i + 1]].Value_ID:
                     raise Mismatch('chain/next-parameter', 'Next_Value_ID of parameter %s in %r does not designate '
                                    '%s\n%s' % (name, text[n.pos[4]:n.pos[5]], params[i + 1], text))
+        # -- event statements: event, target kind and event data chain (R700 / R816) ------
+        if n.cls in ('GenerateInstanceEventNode', 'GenerateClassEventNode', 'GenerateCreatorEventNode',
+                     'CreateInstanceEventNode', 'CreateClassEventNode', 'CreateCreatorEventNode'):
+            spec = n.kids[0]
+            src = text[n.pos[4]:n.pos[5]]
+            e_ess = one(smt_of(n)).E_ESS[603]()
+            if e_ess is None:
+                raise Mismatch('census/event-statement', 'the statement %r is no event specification statement\n%s'
+                               % (src, text))
+            create = n.cls.startswith('Create')
+            if create:
+                sme = one(e_ess).E_CES[701].E_CSME[702]()
+                evt = one(sme).SM_EVT[706]()
+                tgt = (one(sme).E_CEI[704](), one(sme).E_CEA[704](), one(sme).E_CEC[704]())
+                var = one(tgt[0]).V_VAR[711]()
+                evar = one(e_ess).E_CES[701].V_VAR[710]()
+                if evar is None or evar.Name != n.fields['variable_name']:
+                    raise Mismatch('census/event-variable', '%r: the created event is held by the variable %r\n%s'
+                                   % (src, evar and evar.Name, text))
+                edt = one(evar).S_DT[848]()
+                if edt is None or edt.Name != 'inst<Event>':
+                    raise Mismatch('typing/variable', '%r: the event variable has the data type %r\n%s'
+                                   % (src, edt and edt.Name, text))
+            else:
+                sme = one(e_ess).E_GES[701].E_GSME[703]()
+                evt = one(sme).SM_EVT[707]()
+                tgt = (one(sme).E_GEN[705](), one(sme).E_GAR[705](), one(sme).E_GEC[705]())
+                var = one(tgt[0]).V_VAR[712]()
+            ctx.hit('Census.event-statement')
+            if evt is None or evt.Drv_Lbl != spec.fields['identifier']:
+                raise Mismatch('census/event', '%r designates the event %r\n%s' % (src, evt and evt.Drv_Lbl, text))
+            want_kind = {'Instance': 0, 'Class': 1, 'Creator': 2}[n.cls.replace('Generate', '').replace('Create', '')
+                                                                  .replace('EventNode', '')]
+            if [t is not None for t in tgt] != [i == want_kind for i in range(3)]:
+                raise Mismatch('census/event-target', '%r: target subtypes (instance, class, creator) present: %r\n%s'
+                               % (src, [t is not None for t in tgt], text))
+            if want_kind == 0:
+                tn = n.kids[1]
+                tname = 'self' if tn.cls == 'SelfAccessNode' else tn.fields['variable_name']
+                if var is None or var.Name.lower() != tname.lower():
+                    raise Mismatch('census/event-target', '%r is directed to the variable %r\n%s'
+                                   % (src, var and var.Name, text))
+            items = [k.fields['name'] for k in spec.kids[0].kids]
+            pars = list(many(e_ess).V_PAR[700]())
+            if sorted(p.Name for p in pars) != sorted(items):
+                raise Mismatch('chain/parameters-missing', 'event statement %r has the data items %r\n%s'
+                               % (src, [p.Name for p in pars], text))
+            by_name = dict((p.Name, p) for p in pars)
+            for i, name in enumerate(items):
+                ctx.hit('Chain.event-data')
+                nxt = by_name[name].Next_Value_ID
+                if i == len(items) - 1:
+                    if not null(nxt):
+                        raise Mismatch('chain/next-parameter', 'the last data item %s of %r has a next one\n%s'
+                                       % (name, src, text))
+                elif nxt != by_name[items[i + 1]].Value_ID:
+                    raise Mismatch('chain/next-parameter', 'Next_Value_ID of data item %s in %r does not designate '
+                                   '%s\n%s' % (name, src, items[i + 1], text))
+            if len(items) >= 2:
+                nontrivial = True
         # -- navigation chains (R604) ------------------------------------------------
         if n.cls in ('SelectRelatedNode', 'SelectRelatedWhereNode'):
             steps = [(s.fields['key_letter'], int(s.fields['rel_id'][1:]), s.fields['phrase']) for s in n.kids[1].kids]
@@ -306,7 +384,7 @@ def check(ctx, rng, home):
         elif n.cls == 'FieldAccessNode':
             kind = 'attribute'
         elif n.cls == 'ParamAccessNode':
-            kind = 'parameter'
+            kind = 'event-data' if home in pbgen.HOME_EVENT_DATA else 'parameter'
         if kind is None:
             continue
         if isinstance(n.sem, tuple):
@@ -329,7 +407,7 @@ def check(ctx, rng, home):
 def run(ctx):
     rng = ctx.rng
     for i in range(ctx.share(1000 if ctx.tier == 'quick' else 40000)):
-        home = pbgen.HOMES[i % 4]
+        home = pbgen.HOMES[i % len(pbgen.HOMES)]
         try:
             text, nt = check(ctx, rng, home)
             ctx.case((home, text), nt, sample=dict(home=home, program=text))
